@@ -117,6 +117,9 @@ func Discharge(o *Obligation, timeoutS int, allSolvers bool) *Result {
 			if af, err := os.CreateTemp(WorkDir, "a*.smt2"); err == nil {
 				af.WriteString(aq)
 				af.Close()
+				if os.Getenv("VCGO_DUMPABS") != "" {
+					os.WriteFile(filepath.Join(WorkDir, "abs_"+sanitize(o.Name)+".smt2"), []byte(aq), 0o644)
+				}
 				to := timeoutS
 				if to > 5 {
 					to = 5
